@@ -1258,18 +1258,39 @@ func ruleN5(p *Prog, r *Report) {
 			if u, isNot := cond.(*ssa.UnOp); isNot && u.Op == token.NOT {
 				cond, yes = u.X, 1
 			}
+			if call, isCall := canon(cond).(*ssa.Call); isCall {
+				// a predicate of the handle that stays in memory
+				if g := call.Call.StaticCallee(); g != nil && isHandleType(recvName(g)) && !readsStorage(g) {
+					takesID := false
+					for _, a := range call.Call.Args {
+						if typeName(a.Type()) == "ValueID" {
+							takesID = true
+						}
+					}
+					if bt, ok := call.Type().Underlying().(*types.Basic); ok && bt.Kind() == types.Bool && takesID {
+						tests = append(tests, test{b, yes})
+					}
+				}
+				continue
+			}
 			ex, ok := canon(cond).(*ssa.Extract)
 			if !ok {
 				continue
 			}
 			switch t := ex.Tuple.(type) {
 			case *ssa.Lookup:
-				if fr, ok := asLoadedField(t.X); ok && t.CommaOk && fr.Owner != nil && isHandleType(fr.Owner.Obj().Name()) {
+				if fr, ok := asLoadedField(t.X); ok && t.CommaOk && fr.Owner != nil && isHandleType(fr.Owner.Obj().Name()) && typeName(t.Index.Type()) == "ValueID" {
 					tests = append(tests, test{b, yes})
 				}
 			case *ssa.Call:
 				g := t.Call.StaticCallee()
-				if g != nil && isHandleType(recvName(g)) && !readsStorage(g) {
+				takesID := false
+				for _, a := range t.Call.Args {
+					if typeName(a.Type()) == "ValueID" {
+						takesID = true
+					}
+				}
+				if g != nil && isHandleType(recvName(g)) && !readsStorage(g) && takesID {
 					if bt, ok := ex.Type().Underlying().(*types.Basic); ok && bt.Kind() == types.Bool {
 						tests = append(tests, test{b, yes})
 					}
